@@ -25,6 +25,10 @@ StepVerdict(c, k) ==
      ELSE IF [i \in 1..Len(exp) |-> obs.recs[i].pos] # Order(exp) THEN nm \o "_order_or_selection_wrong"
      ELSE IF \E i \in 1..Len(exp) : ~obs.recs[i].cols_ok THEN nm \o "_altered_mandatory_columns"
      ELSE IF \E i \in 1..Len(exp) : obs.recs[i].tags # BagOf(exp[i].tags) THEN nm \o "_optional_fields_wrong"
+     \* `gaftools stat --cigar` is a function of the bag of records and of none of the fields the commands add: a command that
+     \* keeps every record leaves the report as it was
+     ELSE IF obs.stat = "stat_failed" THEN "stat_fails_on_the_output_of_" \o nm
+     ELSE IF nm \in {"sort", "phase", "cat"} /\ obs.stat # (IF k = 1 THEN c.stat0 ELSE c.steps[k - 1].stat) THEN nm \o "_changed_the_statistics"
      ELSE "ok"
 Verdict(c) ==
   IF Len(c.steps) # Len(c.hist) THEN "harness_steps_missing"
